@@ -4,7 +4,7 @@ package main
 
 import (
 	"fmt"
-	"strings"
+	"go/types"
 
 	"golang.org/x/tools/go/ssa"
 )
@@ -25,83 +25,104 @@ func runC19(w *World, r *Report, tier string) {
 
 	fn := w.Func("xmpp.(*backoff).durationForAttempt")
 	r.Anchor("xmpp.(*backoff).durationForAttempt")
-	var rets []*ssa.Return
-	allInstrs(fn, func(in ssa.Instruction) {
-		if rt, ok := in.(*ssa.Return); ok {
-			rets = append(rets, rt)
+	// the attempt counter is the field duration() increments (found by role, not by name)
+	du := w.Func("xmpp.(*backoff).duration")
+	var fAtt *types.Var
+	allInstrsH(du, func(in ssa.Instruction) {
+		if st, ok := in.(*ssa.Store); ok {
+			if fa, ok := st.Addr.(*ssa.FieldAddr); ok && isIncrementOf(in, fieldOfAddr(fa)) {
+				fAtt = fieldOfAddr(fa)
+			}
 		}
 	})
-	if len(rets) != 1 {
-		r.Undecided("R2", "xmpp.(*backoff).durationForAttempt#returns", w.pos(fn.Pos()), "more than one return: cannot normalise")
-		return
-	}
-	got := w.nf(rets[0].Results[0], 0)
 	recv := "param:" + fn.Params[0].Name()
 	att := "param:" + fn.Params[1].Name()
+	attField := "?"
+	if fAtt != nil {
+		attField = "field:" + recv + "." + fAtt.Name()
+	}
 	X := func(attempt string) string {
 		return fmt.Sprintf("mul(field:%s.Base,math.Pow(field:%s.Factor,%s))", recv, recv, attempt)
 	}
 	d := func(attempt string) string {
 		return fmt.Sprintf("math.Trunc(math.Min(field:%s.Cap,%s))", recv, X(attempt))
 	}
-	want := func(attempt string) string {
-		es := []string{d(attempt), "math/rand.Intn(" + d(attempt) + ")"}
-		sortStrings(es)
-		a, b := "1000000", "phi("+strings.Join(es, "|")+")"
+	mulMs := func(x string) string {
+		a, b := "1000000", x
 		if a > b {
 			a, b = b, a
 		}
 		return "mul(" + a + "," + b + ")"
 	}
-	r.Tables["durationForAttempt.normal_form"] = got
-	// R2: shape with any attempt expression
-	shapeOK := false
-	attemptExpr := ""
-	for _, cand := range []string{att, "field:" + recv + ".attempt"} {
-		if got == want(cand) {
-			shapeOK = true
-			attemptExpr = cand
+	var forms []string
+	badShape, attemptExpr := "", ""
+	nPaths, nJit, nNoJit := 0, 0, 0
+	errW := walkPaths(entryLoc(fn), nil, nil, 5000, func(path []ssa.Instruction, end pathEnd) {
+		ret, ok := path[len(path)-1].(*ssa.Return)
+		if !ok || end == endCycle {
+			badShape = "durationForAttempt has a loop or panics"
+			return
 		}
-	}
-	if !shapeOK {
-		// find what stands in the exponent to give a precise message
-		r.Fail("R2", "xmpp.(*backoff).durationForAttempt#shape", w.ipos(rets[0]), "the returned delay is not time.Millisecond × (d | rand.Intn(d)) with d = int(Trunc(Min(Cap, Base × Factor^attempt))): normal form is "+got)
-		r.Undecided("R3", "xmpp.(*backoff).durationForAttempt#formula", w.ipos(rets[0]), "shape not recognised, formula not compared")
-	} else {
-		r.Ok("R2", "xmpp.(*backoff).durationForAttempt#shape", "result = time.Millisecond × phi(d | rand.Intn(d)), d = int(Trunc(Min(Cap, X))) — every returned value passed the cap; jitter only shrinks")
-		r.Ok("R3", "xmpp.(*backoff).durationForAttempt#formula", "X = "+X(attemptExpr))
-		r.Check(attemptExpr == att, "R1", "xmpp.(*backoff).durationForAttempt#depends-on-parameter", w.ipos(rets[0]), "the attempt parameter is never read: the exponent is the receiver's mutable counter ("+attemptExpr+"), so the stateless per-attempt query returns the same delay for every n (durationForAttempt(0) == durationForAttempt(5))", "exponent is the parameter")
-	}
-	// jitter selection: the un-jittered value is chosen exactly on NoJitter == true
-	{
-		var phi *ssa.Phi
-		allInstrs(fn, func(in ssa.Instruction) {
-			if p, ok := in.(*ssa.Phi); ok {
-				phi = p
+		nPaths++
+		got := w.nfOn(ret.Results[0], path)
+		forms = append(forms, got)
+		jitOff := pathAsserts(path, func(c ssa.Value, truth bool) bool { f, _ := loadedField(c); return f != nil && f.Name() == "NoJitter" && truth })
+		jitOn := pathAsserts(path, func(c ssa.Value, truth bool) bool { f, _ := loadedField(c); return f != nil && f.Name() == "NoJitter" && !truth })
+		matched := false
+		for _, cand := range []string{att, attField} {
+			want := ""
+			switch {
+			case jitOff && !jitOn:
+				want = mulMs(d(cand))
+			case jitOn && !jitOff:
+				want = mulMs("math/rand.Intn(" + d(cand) + ")")
 			}
-		})
-		if phi != nil && len(phi.Edges) == 2 {
-			okJ := true
-			for i, e := range phi.Edges {
-				_, isIntn := e.(*ssa.Call)
-				pred := phi.Block().Preds[i]
-				// edge from pred into phi block: find assertion on NoJitter
-				if !isIntn {
-					// reached directly from the branch block: must be the NoJitter==true edge
-					for si, s := range pred.Succs {
-						if s == phi.Block() {
-							if c, truth, ok := edgeAssertion(pred, si); ok {
-								f, _ := loadedField(c)
-								if f == nil || f.Name() != "NoJitter" || !truth {
-									okJ = false
-								}
-							}
-						}
-					}
+			if want != "" && got == want {
+				matched = true
+				if attemptExpr == "" || attemptExpr == cand {
+					attemptExpr = cand
+				} else {
+					attemptExpr = "mixed"
 				}
 			}
-			r.Check(okJ, "R2", "xmpp.(*backoff).durationForAttempt#jitter-switch", w.ipos(phi), "the un-jittered delay is not selected exactly when NoJitter is set", "d when NoJitter, rand.Intn(d) otherwise")
 		}
+		if jitOff {
+			nNoJit++
+		}
+		if jitOn {
+			nJit++
+		}
+		if !matched {
+			which := "jitter"
+			if jitOff {
+				which = "no-jitter"
+			}
+			if !jitOn && !jitOff {
+				which = "unconditional"
+			}
+			badShape = fmt.Sprintf("on the %s path the returned delay is %s, not time.Millisecond × %s with d = int(Trunc(Min(Cap, Base × Factor^attempt)))", which, got, map[string]string{"jitter": "rand.Intn(d)", "no-jitter": "d", "unconditional": "(d | rand.Intn(d) selected by NoJitter)"}[which])
+		}
+	})
+	r.Tables["durationForAttempt.normal_forms"] = forms
+	var rets []*ssa.Return
+	allInstrs(fn, func(in ssa.Instruction) {
+		if rt, ok := in.(*ssa.Return); ok {
+			rets = append(rets, rt)
+		}
+	})
+	if errW != nil {
+		r.Undecided("R2", "xmpp.(*backoff).durationForAttempt#shape", w.pos(fn.Pos()), errW.Error())
+	} else if badShape != "" || nJit == 0 || nNoJit == 0 {
+		if badShape == "" {
+			badShape = fmt.Sprintf("the jitter switch is missing (%d jitter path(s), %d no-jitter path(s))", nJit, nNoJit)
+		}
+		r.Fail("R2", "xmpp.(*backoff).durationForAttempt#shape", w.pos(fn.Pos()), badShape)
+		r.Undecided("R3", "xmpp.(*backoff).durationForAttempt#formula", w.pos(fn.Pos()), "shape not recognised, formula not compared")
+	} else {
+		r.Ok("R2", "xmpp.(*backoff).durationForAttempt#shape", fmt.Sprintf("%d path(s): result = time.Millisecond × d when NoJitter, × rand.Intn(d) otherwise, d = int(Trunc(Min(Cap, X))) — every returned value passed the cap; jitter only shrinks", nPaths))
+		r.Ok("R3", "xmpp.(*backoff).durationForAttempt#formula", "X = "+X(attemptExpr))
+		r.Ok("R2", "xmpp.(*backoff).durationForAttempt#jitter-switch", "d when NoJitter, rand.Intn(d) otherwise")
+		r.Check(attemptExpr == att, "R1", "xmpp.(*backoff).durationForAttempt#depends-on-parameter", w.pos(fn.Pos()), "the attempt parameter is never read: the exponent is the receiver's mutable counter ("+attemptExpr+"), so the stateless per-attempt query returns the same delay for every n (durationForAttempt(0) == durationForAttempt(5))", "exponent is the parameter")
 	}
 	// setDefault is called before the fields are read
 	sd := w.callsIn(fn, "xmpp.backoff.setDefault")
@@ -120,9 +141,11 @@ func runC19(w *World, r *Report, tier string) {
 	r.Check(okSD, "R4", "xmpp.(*backoff).durationForAttempt#defaults-first", w.pos(fn.Pos()), "Base/Cap/Factor are read before setDefault has replaced zero values (rand.Intn(0) panics, zero cap gives zero delay)", "setDefault dominates the reads")
 
 	// R1: duration / wait
-	du := w.Func("xmpp.(*backoff).duration")
-	fAtt := w.Field("xmpp.backoff.attempt")
-	dc := w.callsIn(du, "xmpp.backoff.durationForAttempt")
+	dc := w.callsInH(du, "xmpp.backoff.durationForAttempt")
+	if fAtt == nil {
+		r.Fail("R1", "xmpp.(*backoff).duration#counter", w.pos(du.Pos()), "duration() does not increment an attempt counter: every wait uses the same attempt number")
+		return
+	}
 	okDu := len(dc) == 1
 	detail := ""
 	if okDu {
@@ -133,7 +156,7 @@ func runC19(w *World, r *Report, tier string) {
 		}
 		inc := 0
 		var incI ssa.Instruction
-		allInstrs(du, func(in ssa.Instruction) {
+		allInstrsH(du, func(in ssa.Instruction) {
 			if isStoreTo(in, fAtt) {
 				if isIncrementOf(in, fAtt) {
 					inc++
@@ -172,43 +195,75 @@ func runC19(w *World, r *Report, tier string) {
 		}
 	}
 
-	// R4 defaults
+	// R4 defaults (per path, through helpers)
 	sdf := w.Func("xmpp.(*backoff).setDefault")
 	consts := map[string]string{"Base": "defaultBase", "Cap": "defaultCap", "Factor": "defaultFactor"}
-	n4 := 0
-	allInstrs(sdf, func(in ssa.Instruction) {
-		st, ok := in.(*ssa.Store)
-		if !ok {
-			return
+	stored := map[string]bool{}
+	bad4 := map[string]string{}
+	fieldAt := func(addr ssa.Value, i int) *types.Var {
+		if fa, ok := rvI(addr, i).(*ssa.FieldAddr); ok {
+			return fieldOfAddr(fa)
 		}
-		fa, ok := st.Addr.(*ssa.FieldAddr)
-		if !ok {
-			return
-		}
-		f := fieldOfAddr(fa)
-		n4++
-		cons := "xmpp.(*backoff).setDefault#" + f.Name()
-		cname, known := consts[f.Name()]
-		if !known {
-			r.Fail("R4", cons, w.ipos(in), "setDefault writes a field that is not a setting")
-			return
-		}
-		want, _ := intConstOf(w.Pkgs["xmpp"].Types.Scope().Lookup(cname))
-		got, isC := intConst(st.Val)
-		guard := edgesAsserting(sdf, func(c ssa.Value, truth bool) bool {
-			bo, ok := c.(*ssa.BinOp)
+		return nil
+	}
+	walkPaths(entryLoc(sdf), nil, nil, 5000, func(path []ssa.Instruction, end pathEnd) {
+		// fields asserted zero on this path
+		zero := map[*types.Var]bool{}
+		pathEdges(path, func(b *ssa.BasicBlock, succ int) {
+			c, truth, ok := edgeAssertion(b, succ)
 			if !ok {
-				return false
+				return
 			}
-			lf, _ := loadedField(bo.X)
+			bo, isB := c.(*ssa.BinOp)
+			if !isB {
+				return
+			}
 			z, isZ := intConst(bo.Y)
-			return lf == f && isZ && z == 0 && ((bo.Op.String() == "==") == truth)
+			u, isU := bo.X.(*ssa.UnOp)
+			if !isZ || z != 0 || !isU {
+				return
+			}
+			if f := fieldAt(u.X, curEdgeIdx); f != nil && ((bo.Op.String() == "==") == truth) {
+				zero[f] = true
+			}
 		})
-		guarded := len(guard) > 0 && !reachable(entryLoc(sdf), func(x ssa.Instruction) bool { return x == in }, nil, guard)
-		r.Check(isC && got == want && want > 0 && guarded, "R4", cons, w.ipos(in), fmt.Sprintf("%s is not defaulted to the positive constant %s only when zero (stores %v, guarded=%v)", f.Name(), cname, valStr(st.Val), guarded), fmt.Sprintf("%s = %s (%d) when zero", f.Name(), cname, want))
+		for i, in := range path {
+			st, ok := in.(*ssa.Store)
+			if !ok {
+				continue
+			}
+			f := fieldAt(st.Addr, i)
+			if f == nil {
+				continue
+			}
+			cname, known := consts[f.Name()]
+			if !known {
+				bad4[f.Name()] = "setDefault writes a field that is not a setting"
+				continue
+			}
+			stored[f.Name()] = true
+			want, _ := intConstOf(w.Pkgs["xmpp"].Types.Scope().Lookup(cname))
+			got, isC := intConst(rvI(st.Val, i))
+			if !isC || got != want || want <= 0 {
+				bad4[f.Name()] = fmt.Sprintf("%s is defaulted to %s, not to the positive constant %s", f.Name(), valStr(rvI(st.Val, i)), cname)
+			}
+			if !zero[f] {
+				bad4[f.Name()] = fmt.Sprintf("%s is overwritten although it is not zero: an application setting is lost", f.Name())
+			}
+		}
 	})
-	if n4 != 3 {
-		r.Fail("R4", "xmpp.(*backoff).setDefault#coverage", w.pos(sdf.Pos()), fmt.Sprintf("setDefault stores %d fields, 3 expected", n4))
+	for _, n := range []string{"Base", "Cap", "Factor"} {
+		cons := "xmpp.(*backoff).setDefault#" + n
+		if !stored[n] {
+			r.Fail("R4", cons, w.pos(sdf.Pos()), n+" is never defaulted: a zero value gives a zero delay or makes rand.Intn panic")
+			continue
+		}
+		r.Check(bad4[n] == "", "R4", cons, w.pos(sdf.Pos()), bad4[n], n+" = "+consts[n]+" only when zero")
+	}
+	for k, v := range bad4 {
+		if _, known := consts[k]; !known {
+			r.Fail("R4", "xmpp.(*backoff).setDefault#"+k, w.pos(sdf.Pos()), v)
+		}
 	}
 	capDef, _ := intConstOf(w.Pkgs["xmpp"].Types.Scope().Lookup("defaultCap"))
 	r.Check(capDef == 180000, "R4", "xmpp.defaultCap", "-", fmt.Sprintf("the default cap is %d ms, the statement says three minutes (180000 ms)", capDef), "180000 ms")
